@@ -107,13 +107,18 @@ def classify(res, g):
             # unknown verification message: treat as verification failure of unknown kind
             kind = "other:" + msg[:60]
         prim = [s for s in spans if s.get("is_primary")] or spans
-        all_lines = []
-        for s in spans:
-            all_lines += list(range(s["line_start"], s["line_end"] + 1))
+        # prefer the clause Verus points at (primary span), then short secondary spans; a long span (a whole
+        # function body / loop) would sweep up unrelated labelled lines
+        ordered = sorted(spans, key=lambda sp: (0 if sp.get("is_primary") else 1, sp["line_end"] - sp["line_start"]))
         label = None
-        for ln in all_lines:
-            if ln in g.labels:
-                label = g.labels[ln]
+        for sp in ordered:
+            if sp["line_end"] - sp["line_start"] > 6:
+                continue
+            for ln in range(sp["line_start"], sp["line_end"] + 1):
+                if ln in g.labels:
+                    label = g.labels[ln]
+                    break
+            if label:
                 break
         pline = prim[0]["line_start"] if prim else 0
         f = fn_of_line(g, pline)
@@ -213,6 +218,10 @@ def check_unit(unit, tier="quick", vacuity=True):
         raise Undecided("unsupported-construct", "%s: %s" % (unit, msgs))
     bd = breakdown(res)
     vr = res["json"]["verification-results"]
+    if vr.get("encountered-vir-error") or (not bd and (fails or vr.get("encountered-error"))):
+        # syntax / mode / type errors reported without an error code: nothing was verified
+        msgs = "; ".join((d.get("message") or "")[:160] for d in res["diags"] if d.get("level") == "error")[:600]
+        raise Undecided("unsupported-construct", "%s: %s" % (unit, msgs))
     # resource-out is undecided, not a failure
     if "rlimit" in res["stderr"].lower() and "exceeded" in res["stderr"].lower():
         raise Undecided("rlimit", unit)
